@@ -230,6 +230,19 @@ class __Class(_pre.Pregex):
         super().__init__(pattern, escape=False)
 
 
+    @staticmethod
+    def _to_char(c: str or _pre.Pregex) -> str:
+        '''
+        Returns the single character that the provided argument stands for: \
+        strings are returned as they are, whereas tokens are stripped of the \
+        backslash that escapes them outside of a class, if there is any.
+        '''
+        if isinstance(c, str):
+            return c
+        c = str(c)
+        return c[1] if len(c) == 2 and c[0] == "\\" and not c[1].isalnum() else c
+
+
     def _get_verbose_pattern(self) -> str:
         '''
         Returns a verbose representation of this class's pattern.
@@ -1025,7 +1038,7 @@ class AnyBetween(__Class):
             else:
                 message = f"Argument \"{c}\" is neither a string nor a token."
                 raise _ex.InvalidArgumentTypeException(message)
-        start, end = str(start), str(end)
+        start, end = __class__._to_char(start), __class__._to_char(end)
         if ord(start) >= ord(end):
             raise _ex.InvalidRangeException(start, end)
         start = f"\\{start}" if start in __class__._to_escape else start
@@ -1072,7 +1085,7 @@ class AnyButBetween(__Class):
             else:
                 message = f"Argument \"{c}\" is neither a string nor a token."
                 raise _ex.InvalidArgumentTypeException(message)
-        start, end = str(start), str(end)
+        start, end = __class__._to_char(start), __class__._to_char(end)
         if ord(start) >= ord(end):
             raise _ex.InvalidRangeException(start, end)
         start = f"\\{start}" if start in __class__._to_escape else start
@@ -1118,8 +1131,8 @@ class AnyFrom(__Class):
             else:
                 message = f"Argument \"{c}\" is neither a string nor a token."
                 raise _ex.InvalidArgumentTypeException(message)
-        chars = tuple((f"\\{c}" if c in __class__._to_escape else c) \
-            if isinstance(c, str) else str(c) for c in chars)
+        chars = tuple(map(__class__._to_char, chars))
+        chars = tuple((f"\\{c}" if c in __class__._to_escape else c) for c in chars)
         super().__init__(f"[{''.join(chars)}]", is_negated=False)
 
 
@@ -1161,8 +1174,8 @@ class AnyButFrom(__Class):
             else:
                 message = f"Argument \"{c}\" is neither a string nor a token."
                 raise _ex.InvalidArgumentTypeException(message)
-        chars = tuple((f"\{c}" if c in __class__._to_escape else c)
-            if isinstance(c, str) else str(c) for c in chars)
+        chars = tuple(map(__class__._to_char, chars))
+        chars = tuple((f"\\{c}" if c in __class__._to_escape else c) for c in chars)
         super().__init__(f"[^{''.join(chars)}]", is_negated=True)
 
 
